@@ -512,7 +512,7 @@ impl Scenario for C05 {
     const ID: &'static str = "C05";
     const LEVEL: &'static str = "exploration";
     fn runs(tier: Tier) -> u64 {
-        tier.pick(8_000, 600_000)
+        tier.pick(300_000, 20_000_000)
     }
     fn profiles() -> &'static [Profile] {
         &[Profile::Release]
@@ -735,7 +735,7 @@ impl Scenario for C10 {
     const ID: &'static str = "C10";
     const LEVEL: &'static str = "exploration";
     fn runs(tier: Tier) -> u64 {
-        tier.pick(8_000, 600_000)
+        tier.pick(300_000, 20_000_000)
     }
     fn profiles() -> &'static [Profile] {
         &[Profile::Release]
